@@ -133,7 +133,18 @@ class Dumper(object):
     out = {'set': 'obj%d' % r, 'card': _py(self.m, z3.Select(c, z3.IntVal(r))) if c is not None else '?'}
     if a is not None:
       out['mem'] = str(self.m.eval(z3.Select(a, z3.IntVal(r)), model_completion=True))[:400]
+      if ty.args[0].k == 'int':
+        out['members'] = [v for v in self.candidates() if _py(self.m, z3.Select(z3.Select(a, z3.IntVal(r)), z3.IntVal(v))) is True]
     return out
+
+  def candidates(self):
+    c = set(range(-2, 41))
+    for name, v in (self.eng.entry_params or {}).items():
+      if isinstance(v, V) and v.ty.k == 'int' and v.t is not None:
+        x = _py(self.m, v.t)
+        if isinstance(x, int):
+          c.update([x - 1, x, x + 1])
+    return sorted(c)
 
   def dump_dict(self, r, ty, depth):
     a = self.entry.get(self.eng.ckey(ty, 'has'))
@@ -141,6 +152,8 @@ class Dumper(object):
     out = {'dict': 'obj%d' % r, 'card': _py(self.m, z3.Select(c, z3.IntVal(r))) if c is not None else '?'}
     if a is not None:
       out['has'] = str(self.m.eval(z3.Select(a, z3.IntVal(r)), model_completion=True))[:400]
+      if ty.args[0].k == 'int':
+        out['keys'] = [v for v in self.candidates() if _py(self.m, z3.Select(z3.Select(a, z3.IntVal(r)), z3.IntVal(v))) is True]
     return out
 
 
